@@ -1,0 +1,18 @@
+//go:build verif
+
+package chain
+
+import (
+	"context"
+
+	cfg "github.com/tendermint/tendermint/config"
+
+	"github.com/shutter-network/rolling-shutter/rolling-shutter/medley/service"
+)
+
+// Verification hooks (build tag verif).
+
+// VerifStartApp runs the node's start-up (state file handling first) with the given tendermint config.
+func VerifStartApp(ctx context.Context, runner service.Runner, config *cfg.Config) error {
+	return (&appService{config: config}).Start(ctx, runner)
+}
